@@ -288,7 +288,8 @@ C16(pre, e, post, line) ==
        LET o == pre.accts[e.a.acct] o2 == post.accts[e.a.acct] n == post.accts[e.a.new_acct] IN
        /\ Chk("C16", "transfer_moves_all_positions_once", line,
               /\ ~Has(pre.accts, e.a.new_acct)
-              /\ ~Bit(o.flags, ACC_DISABLED) /\ o.mig_to = "none"
+              /\ o.mig_to = "none"                              \* "once": an account that already migrated cannot migrate again
+              /\ (Bit(o.flags, ACC_DISABLED) => Bit(n.flags, ACC_DISABLED))   \* a bankrupt account stays disabled across the move
               /\ n.bal = o.bal /\ ActiveSlots(o2) = {}
               /\ o2.mig_to = e.a.new_acct /\ n.mig_from = e.a.acct
               /\ Bit(o2.flags, ACC_DISABLED) /\ n.group = o.group, [acct |-> e.a.acct])
